@@ -13,7 +13,7 @@ use jrpc_harness::subs_env::*;
 fn main() {
 	let a = args();
 	let mut out = Out::new();
-	let pf = Profile { check_c06: true, check_c04: false, w_accept: 6, w_send: 3, w_ret: 2, w_wstep: 5, w_burst: 1, tail: true };
+	let pf = Profile { check_c06: true, check_c04: false, w_accept: 6, w_send: 3, w_ret: 2, w_wstep: 5, reuse_ids: 3, w_burst: 1, tail: true };
 	if let Some(r) = &a.replay {
 		for case in split_cases(read_case_lines(r)) {
 			run_fixed(&mut out, &case, &pf);
@@ -63,6 +63,7 @@ fn main() {
 			}
 		}
 		exhaustive(&mut out, if thorough { 6 } else { 5 }, &mut caseno, &pf);
+		exhaustive_reuse(&mut out, if thorough { 7 } else { 6 }, &mut caseno, &pf);
 	}
 	out.write(&a.out);
 	if a.replay.is_some() {
